@@ -19,7 +19,7 @@
 (*      stands for "still parses" inside the specification, and the        *)
 (*      abstract expectation of "import class K from module M" (Good);     *)
 (*   4. the two shapes of fix the implementation is known to produce       *)
-(*      (Fix(.., "glue") - today's code - and Fix(.., "newline")), used    *)
+(*      (Fix(.., "glue") and Fix(.., "newline"), at two positions), used   *)
 (*      for the theorems checked by TLC in EditsGen.tla and, in            *)
 (*      EditsTrace.tla, only to report model drift.                        *)
 (***************************************************************************)
@@ -91,22 +91,43 @@ ApplyEdits(T, es) ==
 
 \* the unresolved class and who exports what
 K == "Foo"
-NamesOf(m) == CASE m = "A" -> <<"Other">>          \* A also exports K: "an import that already
-                [] m = "B" -> <<"Bar">>            \*   names another class of the same module"
-                [] m = "C" -> <<"Cat", "Cow">>
-ImportPool == {"A", "B", "C"}
+\* An import of the document is chosen by a key; the key fixes the module and the names imported.
+\*   A  : A may also export K: "an import that already names another class of the same module"
+\*   W1, W2 : module W exists but does NOT export K, and the import names K all the same (alone, or
+\*        together with a class W does export) - e.g. after K moved from W to another module
+\*   N2, N3 : nested modules (dotted paths of two and three parts)
+BaseKeys == {"A", "B", "C"}
+ExtKeys  == {"W1", "W2", "N2", "N3"}
+ModOf(key) == CASE key = "A" -> "A" [] key = "B" -> "B" [] key = "C" -> "C"
+                [] key \in {"W1", "W2"} -> "W"
+                [] key = "N2" -> "Lib.Util"
+                [] key = "N3" -> "Lib.Deep.Core"
+NamesOf(key) == CASE key = "A" -> <<"Other">>
+                  [] key = "B" -> <<"Bar">>
+                  [] key = "C" -> <<"Cat", "Cow">>
+                  [] key = "W1" -> <<K>>
+                  [] key = "W2" -> <<"Wal", K>>
+                  [] key = "N2" -> <<"Uti">>
+                  [] key = "N3" -> <<"Core">>
 CommentKinds == {"none", "line", "block"}
 Layouts == {"plain", "tight", "trail", "oneline", "stray"}
 
-ModuleText(m, nexp) ==
-  CASE m = "A" -> "class Foo {\n  function bar(): int = 2\n}\nclass Other {\n  function baz(): int = 3\n}\n"
+\* the exporters of K: a sequence of module names drawn from A, E and the nested module Lib.Exp
+ExporterChoices == {<<"A">>, <<"A", "E">>, <<"Lib.Exp">>}
+FooClass(n) == "class Foo {\n  function bar(): int = " \o n \o "\n}\n"
+ModuleText(m, exps) ==
+  CASE m = "A" -> (IF "A" \in ToSet(exps) THEN FooClass("2") ELSE "") \o "class Other {\n  function baz(): int = 3\n}\n"
     [] m = "B" -> "class Bar {\n  function f(): int = 1\n}\n"
     [] m = "C" -> "class Cat {\n  function f(): int = 1\n}\nclass Cow {\n  function g(): int = 1\n}\n"
-    [] m = "E" -> "class Foo {\n  function bar(): int = 5\n}\n"
-Exporters(nexp) == IF nexp = 1 THEN <<"A">> ELSE <<"A", "E">>
+    [] m = "E" -> FooClass("5")
+    [] m = "Lib.Exp" -> FooClass("7")
+    [] m = "W" -> "class Wal {\n  function f(): int = 1\n}\n"
+    [] m = "Lib.Util" -> "class Uti {\n  function f(): int = 1\n}\n"
+    [] m = "Lib.Deep.Core" -> "class Core {\n  function f(): int = 1\n}\n"
 
 \* an import entry of the abstract document
-ImportEntry(m, semi, cmt, blank) == [mod |-> m, names |-> NamesOf(m), semi |-> semi, cmt |-> cmt, blank |-> blank]
+ImportEntry(key, semi, cmt, blank) ==
+  [mod |-> ModOf(key), names |-> NamesOf(key), semi |-> semi, cmt |-> cmt, blank |-> blank]
 
 \* the import table of an abstract document: set of <<module, class>>
 Table(imps) == UNION {{<<imps[i].mod, imps[i].names[j]>> : j \in 1..Len(imps[i].names)} : i \in 1..Len(imps)}
@@ -296,13 +317,16 @@ Good(T, es, m, k) ==
 (* 4. The shapes of fix the implementation is known to produce (ast_differ.rs: one insertion at  *)
 (* the end of the last existing import - as far as the parser says it extends -, or at the start  *)
 (* of the document when there is none).                                                          *)
-FixVariants == {"glue", "newline"}
+\* The position is the end of the last token of the last import ("glue", "newline": source_parser.rs
+\* since the import's range stops at the module name) or the end of the comments that follow it
+\* ("...-extent": before that repair).
+FixVariants == {"glue", "newline", "glue-extent", "newline-extent"}
 Fix(T, m, k, variant) ==
   LET h    == ParseHeader(T)
       stmt == "import { " \o k \o " } from " \o m \o ";"
-      at   == h.lastExtent
+      at   == IF variant \in {"glue", "newline"} THEN h.lastEnd ELSE h.lastExtent
   IN IF h.nImports = 0
      THEN << [sl |-> 0, sc |-> 0, el |-> 0, ec |-> 0, text |-> stmt] >>
      ELSE << [sl |-> at[1], sc |-> at[2], el |-> at[1], ec |-> at[2],
-              text |-> IF variant = "newline" THEN "\n" \o stmt ELSE stmt] >>
+              text |-> IF variant \in {"newline", "newline-extent"} THEN "\n" \o stmt ELSE stmt] >>
 =============================================================================
